@@ -298,3 +298,10 @@ Theorem C04_depaccumulate_inputs_produced : forall ts self linked extracted,
   forall q, In q (depaccumulate_inputs self linked extracted) -> In q (produced_jsons ts).
 Proof. exact depaccumulate_inputs_produced. Qed.
 Print Assumptions C04_depaccumulate_inputs_produced.
+
+(* with pending/C04-unity-extracted-objects.diff extract_all_objects() of a unity target
+   names exactly the objects that are compiled, for every source list and unity_size *)
+Theorem C04_unity_extracted_objects_fixed : forall srcs size o,
+  In o (extracted_objects_fixed srcs size) <-> In o (compiled_objects srcs size).
+Proof. exact extracted_fixed_are_compiled. Qed.
+Print Assumptions C04_unity_extracted_objects_fixed.
